@@ -1068,6 +1068,7 @@ func (s *SecureChannel) sendAsyncWithTimeout(
 	}
 
 	for i, chunk := range chunks {
+		verifhook.Point("sc.send.chunk")
 		select {
 		case <-ctx.Done():
 			return nil, ctx.Err()
@@ -1151,6 +1152,7 @@ func (s *SecureChannel) writeMessageChunks(ctx context.Context, instance *channe
 
 	var bytesSent int
 	for i, chunk := range chunks {
+		verifhook.Point("sc.resp.chunk")
 		select {
 		case <-ctx.Done():
 			return bytesSent, ctx.Err()
